@@ -1,5 +1,7 @@
 import Driver.Common
-/-! Driver of the `cons` family (stub: no stream yet). -/
+import Driver.Cons
 
 def main (args : List String) : IO UInt32 :=
-  Drv.mainWith [] args
+  Drv.mainWith [
+    ("cons", Drv.Cons.stream)
+  ] args
